@@ -222,6 +222,8 @@ def run_cvc5(solver) -> str:
         out = (p.stdout or "").strip().splitlines()
         if out and out[0] in ("sat", "unsat", "unknown"):
             return out[0]
+        if "timeout" in ((p.stdout or "") + (p.stderr or "")).lower():
+            return "timeout"
         return "error"
     finally:
         try:
